@@ -521,7 +521,7 @@ func init() {
 	copies := []string{"(*graph.DenseGraph).Copy", "(*graph.DenseGraph).InducedSubgraph", "(graph.SparseGraph).Copy", "(graph.SparseGraph).InducedSubgraph"}
 	register(&propDef{
 		id:          "C05",
-		explanation: "Decides three structural clauses of the editable graphs: COUPLE (in every function of package graph that directly mutates adjacency storage reached from a parameter, every path through the mutation also writes NumberOfEdges and DegreeSequence of that graph; AddEdge/RemoveEdge of both representations update the count once, each endpoint's degree once, with the sign of the adjacency change), FRESH/PURE (Copy and InducedSubgraph of both representations return memory that reaches neither receiver nor argument, and write nothing reachable from them), EDGEBYTE (a byte read from an existing graph's adjacency storage is only ever tested against zero, never used numerically, since any non-zero byte is an edge), ROWS (every neighbour list stored into a SparseGraph table owns its backing array: no window into an array shared with other rows), MAKECAP (where an edit method allocates with a capacity computed separately from the length - a growth policy - length <= capacity is proved), REGROW (storage that an edit method grows back in place into spare capacity - a slice expression guarded by a cap test - is visibly initialised up to its new length by a sweep, copy or clear: the spare capacity holds whatever an earlier RemoveVertex/RemoveEdge left there), TRI (every element index into DenseGraph.Edges in graph_dense.go is a lower-triangle cell J(J-1)/2+I with 0<=I<J proved by E-PROVE where the operands are locally controlled, a running index over a J/I nest, or a linear sweep). Does not decide agreement with the adjacency-set model under arbitrary histories.",
+		explanation: "Decides three structural clauses of the editable graphs: COUPLE (in every function of package graph that directly mutates adjacency storage reached from a parameter, every path through the mutation also writes NumberOfEdges and DegreeSequence of that graph; AddEdge/RemoveEdge of both representations update the count once, each endpoint's degree once, with the sign of the adjacency change), FRESH/PURE (Copy and InducedSubgraph of both representations return memory that reaches neither receiver nor argument, and write nothing reachable from them), EDGEBYTE (a byte read from an existing graph's adjacency storage is only ever tested against zero, never used numerically, since any non-zero byte is an edge), ROWS (every neighbour list stored into a SparseGraph table owns its backing array: no window into an array shared with other rows), MAKECAP (where an edit method allocates with a capacity computed separately from the length - a growth policy - length <= capacity is proved), REGROW (storage that an edit method grows back in place into spare capacity - a slice expression guarded by a cap test - is visibly initialised up to its new length by a sweep, copy or clear: the spare capacity holds whatever an earlier RemoveVertex/RemoveEdge left there), ROWDEG (where SparseGraph.AddVertex appends a row to Neighbourhoods and a number to DegreeSequence, the number is proved equal to the length of that row: a degree taken from the raw argument disagrees with the de-duplicated row), TRI (every element index into DenseGraph.Edges in graph_dense.go is a lower-triangle cell J(J-1)/2+I with 0<=I<J proved by E-PROVE where the operands are locally controlled, a running index over a J/I nest, or a linear sweep). Does not decide agreement with the adjacency-set model under arbitrary histories.",
 		notDecided:  []string{"that observers agree with an adjacency-set model after every edit history (e.g. the compaction arithmetic of dense RemoveVertex, duplicate neighbours passed to AddVertex)", "dense/sparse agreement", "InducedSubgraph(V) maps vertex i to V[i]"},
 		assumptions: []string{"vertex numbers passed as parameters are non-negative (callers' contract)", "neighbour lists / codes loaded from memory satisfy their range preconditions (recorded in the evidence, not judged)"},
 		run: func(c *Ctx, tier string) []*RuleResult {
@@ -541,7 +541,8 @@ func init() {
 			// an edit method that allocates with a separate capacity (a growth policy) must not ask for less
 			// capacity than length: make panics for exactly those sizes
 			mcap := ruleMakeCapAny(c, filesOf(c, "graph.NewDense", "graph.NewSparse", "T:graph.DenseGraph", "T:graph.SparseGraph"))
-			return []*RuleResult{cp, fr, tri, ruleRows(c), ruleEdgeByte(c, "graph"), ruleRegrow(c, "graph"), mcap}
+			rd := ruleRowDeg(c, "graph", "SparseGraph", "Neighbourhoods", "DegreeSequence")
+			return []*RuleResult{cp, fr, tri, ruleRows(c), ruleEdgeByte(c, "graph"), ruleRegrow(c, "graph"), mcap, rd}
 		},
 		controls: func(ctl *Ctx) []*RuleResult {
 			cp := ruleCouple(ctl, map[string]bool{"ctl/graph": true})
@@ -552,16 +553,16 @@ func init() {
 			freshResult(ctl, fr, ctl.Fn("(*graph.DenseGraph).GoodCopy"), 0, nil, nil, "is a deep copy")
 			tri := ruleTri(ctl, func(string) bool { return true }, "TRI")
 			lit := ruleLiteral(ctl)
-			return []*RuleResult{cp, es, fr, tri, lit, ruleRows(ctl), ruleEdgeByte(ctl, "graph"), ruleRegrow(ctl, "graph")}
+			return []*RuleResult{cp, es, fr, tri, lit, ruleRows(ctl), ruleEdgeByte(ctl, "graph"), ruleRegrow(ctl, "graph"), ruleRowDeg(ctl, "rowctl", "SparseGraph", "Neighbourhoods", "DegreeSequence")}
 		},
 	})
 	register(&propDef{
 		id:          "C06",
-		explanation: "Decides: FRESH (the graphs returned by NewDense and NewSparse reach no memory of the caller's edges / neighbourhoods slices, so later writes by the caller cannot change them), LITERAL (every DenseGraph/SparseGraph composite literal in the module that sets the adjacency field also sets NumberOfVertices, NumberOfEdges and DegreeSequence), EDGEBYTE (transformations and encoders never use the numeric value of an input graph's adjacency byte), VIEW (the methods of the live complement / induced-subgraph views write nothing reachable from the view: no cache to go stale), OWNER (no function other than SparseGraph's own edit methods writes the fields of an existing SparseGraph, whether received as a parameter or obtained from a constructor call, so decoders cannot bypass the row invariants; likewise for DenseGraph: only its edit methods and the search iterator, which owns the graph it extends in place, write an existing DenseGraph, so a generator that sets adjacency bytes and bumps the counts of a graph another constructor returned is reported), TRI (every hand-written index into packed-triangle storage in the generators, transformations, decoders and the search is a lower-triangle cell: closed form with 0<=I<J proved for all accepted parameter values when the operands are locally controlled, running index, or linear sweep), DEGSYNC (an edge recorded at cell (I,J) is counted into the returned degree sequence at exactly the entries I and J), COUNTS (hand-filled NumberOfEdges >= 0 and degrees within [0,n-1] for every accepted argument), IRREFLEXIVE (no IsEdge implementation can be true for i == j), REGROW (graph storage grown in place into spare capacity is initialised up to its new length), and classifies each constructor as counted-by-construction or hand-filled. Does not decide that each named family has exactly the edges of its definition.",
+		explanation: "Decides: FRESH (the graphs returned by NewDense and NewSparse reach no memory of the caller's edges / neighbourhoods slices, and the InducedSubgraph view none of the caller's V, so later writes by the caller cannot change them), PARTIAL (in every exported function of package graph, under non-negative integer parameters, each make size written in terms of the parameters is proved non-negative and each non-constant divisor non-zero: the smallest sizes are accepted arguments), LITERAL (every DenseGraph/SparseGraph composite literal in the module that sets the adjacency field also sets NumberOfVertices, NumberOfEdges and DegreeSequence), EDGEBYTE (transformations and encoders never use the numeric value of an input graph's adjacency byte), VIEW (the methods of the live complement / induced-subgraph views write nothing reachable from the view: no cache to go stale), OWNER (no function other than SparseGraph's own edit methods writes the fields of an existing SparseGraph, whether received as a parameter or obtained from a constructor call, so decoders cannot bypass the row invariants; likewise for DenseGraph: only its edit methods and the search iterator, which owns the graph it extends in place, write an existing DenseGraph, so a generator that sets adjacency bytes and bumps the counts of a graph another constructor returned is reported), TRI (every hand-written index into packed-triangle storage in the generators, transformations, decoders and the search is a lower-triangle cell: closed form with 0<=I<J proved for all accepted parameter values when the operands are locally controlled, running index, or linear sweep), DEGSYNC (an edge recorded at cell (I,J) is counted into the returned degree sequence at exactly the entries I and J), COUNTS (hand-filled NumberOfEdges >= 0 and degrees within [0,n-1] for every accepted argument), IRREFLEXIVE (no IsEdge implementation can be true for i == j), REGROW (graph storage grown in place into spare capacity is initialised up to its new length), and classifies each constructor as counted-by-construction or hand-filled. Does not decide that each named family has exactly the edges of its definition.",
 		notDecided:  []string{"that each named family has exactly the edges its definition prescribes", "full agreement of hand-filled counts with adjacency (CompleteGraph, CompletePartiteGraph, Path, Star, Cycle, ComplementDense): only their range (COUNTS) and the pairing of counted edges (DEGSYNC) are decided"},
 		assumptions: []string{"vertex numbers passed as parameters are non-negative", "data-derived operands (Pruefer code elements, Multicode bytes, neighbour lists, part sizes) satisfy their range preconditions (recorded, not judged)"},
 		run: func(c *Ctx, tier string) []*RuleResult {
-			fr := &RuleResult{Rule: "FRESH", Doc: "NewDense / NewSparse keep no caller memory", MinInst: 2}
+			fr := &RuleResult{Rule: "FRESH", Doc: "NewDense / NewSparse keep no caller memory; the InducedSubgraph view keeps no memory of V", MinInst: 5}
 			nd := c.Fn("graph.NewDense")
 			freshResult(c, fr, nd, 0, nil, nil, "does not alias the caller's slices")
 			ns := c.Fn("graph.NewSparse")
@@ -592,7 +593,11 @@ func init() {
 				}
 			}
 			all := func(string) bool { return true }
-			return []*RuleResult{fr, ruleLiteral(c), tri, own, ruleEdgeByte(c, "graph"), vw, ruleRows(c), ruleDegSync(c, all), ruleCounts(c, all), ruleIrreflexive(c, "graph"), ruleRegrow(c, "graph"), ruleSubword(c, func(f string) bool { return strings.HasSuffix(filepath.Dir(f), "/graph") }), ruleRetainHelpers(c), ruleCtorClass(c)}
+			// the view returned by InducedSubgraph keeps the graph it views, by design, but not the caller's V
+			freshResult(c, fr, c.Fn("graph.InducedSubgraph"), 0, []int{1}, nil, "keeps no memory of V (it views g, by design)")
+			pt := rulePartial(c, func(f string) bool { return filepath.Base(filepath.Dir(f)) == "graph" }, true)
+			pt.MinInst = 20
+			return []*RuleResult{pt, fr, ruleLiteral(c), tri, own, ruleEdgeByte(c, "graph"), vw, ruleRows(c), ruleDegSync(c, all), ruleCounts(c, all), ruleIrreflexive(c, "graph"), ruleRegrow(c, "graph"), ruleSubword(c, func(f string) bool { return strings.HasSuffix(filepath.Dir(f), "/graph") }), ruleRetainHelpers(c), ruleCtorClass(c)}
 		},
 		controls: func(ctl *Ctx) []*RuleResult {
 			fr := &RuleResult{Rule: "FRESH"}
@@ -602,7 +607,8 @@ func init() {
 				freshResult(ctl, fr, ctl.Fn("(*effctl.D2)."+n), 0, nil, nil, "does not alias the receiver's slices")
 			}
 			all := func(string) bool { return true }
-			return []*RuleResult{fr, ruleLiteral(ctl), ruleTri(ctl, all, "TRI"), ruleDegSync(ctl, all), ruleCounts(ctl, all), ruleIrreflexive(ctl, "graph")}
+			pt := rulePartial(ctl, func(f string) bool { return filepath.Base(f) == "partctl.go" }, true)
+			return []*RuleResult{fr, ruleLiteral(ctl), ruleTri(ctl, all, "TRI"), ruleDegSync(ctl, all), ruleCounts(ctl, all), ruleIrreflexive(ctl, "graph"), pt}
 		},
 	})
 }
@@ -910,4 +916,109 @@ func filesOf(c *Ctx, anchors ...string) func(string) bool {
 		}
 	}
 	return func(file string) bool { return files[file] }
+}
+
+// ruleRowDeg: where one function appends a neighbour list to the row table of a graph and a number
+// to its degree sequence (a vertex is added), the number is the length of that very list. A degree
+// taken from another slice - the raw argument, say, when the stored row was de-duplicated - makes
+// Degrees() disagree with Neighbours() for the new vertex.
+func ruleRowDeg(c *Ctx, pkgRel, typ, rowField, degField string) *RuleResult {
+	r := &RuleResult{Rule: "ROWDEG", Doc: "a degree appended to " + degField + " together with a row appended to " + rowField + " is the length of that row", MinInst: 1}
+	// the single value appended by  append(<recv>.<field>, v)
+	appended := func(call *ssa.Call, field string) (recv ssa.Value, v ssa.Value, ok bool) {
+		b, isB := call.Call.Value.(*ssa.Builtin)
+		if !isB || b.Name() != "append" || len(call.Call.Args) != 2 {
+			return nil, nil, false
+		}
+		ld, isLd := call.Call.Args[0].(*ssa.UnOp)
+		if !isLd || ld.Op != token.MUL {
+			return nil, nil, false
+		}
+		fa, isFa := ld.X.(*ssa.FieldAddr)
+		if !isFa {
+			return nil, nil, false
+		}
+		pt, isPt := fa.X.Type().Underlying().(*types.Pointer)
+		if !isPt {
+			return nil, nil, false
+		}
+		st, isSt := pt.Elem().Underlying().(*types.Struct)
+		if !isSt || st.Field(fa.Field).Name() != field {
+			return nil, nil, false
+		}
+		n, isN := pt.Elem().(*types.Named)
+		if !isN || n.Obj().Name() != typ {
+			return nil, nil, false
+		}
+		// varargs: slice of a one-element array allocated for the call
+		sl, isSl := call.Call.Args[1].(*ssa.Slice)
+		if !isSl {
+			return nil, nil, false
+		}
+		al, isAl := sl.X.(*ssa.Alloc)
+		if !isAl {
+			return nil, nil, false
+		}
+		at, isAt := al.Type().Underlying().(*types.Pointer).Elem().Underlying().(*types.Array)
+		if !isAt || at.Len() != 1 {
+			return nil, nil, false
+		}
+		for _, ref := range *al.Referrers() {
+			if ia, isIa := ref.(*ssa.IndexAddr); isIa {
+				for _, r2 := range *ia.Referrers() {
+					if s, isS := r2.(*ssa.Store); isS && s.Addr == ia {
+						return fa.X, s.Val, true
+					}
+				}
+			}
+		}
+		return nil, nil, false
+	}
+	for _, fn := range c.Funcs {
+		p := fnPkg(fn)
+		if p == nil || p.Pkg.Path() != c.Mod+"/"+pkgRel || fn.Synthetic != "" || fn.Blocks == nil {
+			continue
+		}
+		type app struct {
+			call *ssa.Call
+			recv ssa.Value
+			v    ssa.Value
+		}
+		var rows, degs []app
+		for _, b := range fn.Blocks {
+			for _, in := range b.Instrs {
+				if call, ok := in.(*ssa.Call); ok {
+					if rv, v, ok := appended(call, rowField); ok {
+						rows = append(rows, app{call, rv, v})
+					}
+					if rv, v, ok := appended(call, degField); ok {
+						degs = append(degs, app{call, rv, v})
+					}
+				}
+			}
+		}
+		if len(rows) == 0 || len(degs) == 0 {
+			continue
+		}
+		P := NewProver(c, fn)
+		for _, d := range degs {
+			for _, row := range rows {
+				if row.recv != d.recv {
+					continue
+				}
+				src := c.srcAt(d.call.Pos())
+				if src == "" {
+					src = valName(d.v)
+				}
+				r.inst("%s: %s is the length of the row appended to %s", c.short(fn), src, rowField)
+				diff := P.poly(d.v).add(P.lenOf(row.v), -1)
+				same := diff.key() == "" || (P.Prove(diff, d.call.Block()) && P.Prove(diff.scale(-1), d.call.Block()))
+				r.oblig(same)
+				if !same {
+					r.find(c.short(fn)+":degree of the new vertex is not the length of its row", c.instrPos(d.call), "%s appends the row %s to %s but the degree %s to %s, which is not proved equal to the length of that row: Degrees() and Neighbours() disagree for the new vertex whenever the two differ", c.short(fn), valName(row.v), rowField, P.showTerm(P.poly(d.v)), degField)
+				}
+			}
+		}
+	}
+	return r
 }
